@@ -264,7 +264,7 @@ def r3(ctx, cfg):
                 tpl, fargs = fp
                 d = "template %r args %s" % (tpl, [fmt(a)[:40] for k, a in fargs])
                 okt = tpl == "\x05wasm-\xc0\x00" and len(fargs) == 1 and fargs[0][0] == "display" and \
-                    contains(fargs[0][1], lambda x: x[0] == "field" and x[2] == "ty" and is_elem(x[1]))
+                    peel(fargs[0][1])[0] == "field" and peel(fargs[0][1])[2] == "ty" and is_elem(peel(fargs[0][1])[1])     # (the type itself)
             ctx.ob(R, g.key, "type-renamed-wasm-prefix", okt, "the new event's type must be format!(\"wasm-{}\", ev.ty); found %s" % d, fn=g, sample=d)
             return
     ctx.ob(R, g.key, "returns-the-event", base[0] == "bound" and base[1] == "elem", "the stored event is %s" % fmt(e)[:100],
@@ -293,8 +293,9 @@ def r3(ctx, cfg):
             tpl, fargs = fp
             d = "template %r args %s" % (tpl, [fmt(a)[:40] for k, a in fargs])
             # rustc's compact template: <len><literal bytes> then 0xC0 = next argument, 0x00 = end
+            # (the argument is the element's type itself, not something computed from it)
             ok = tpl == "\x05wasm-\xc0\x00" and len(fargs) == 1 and fargs[0][0] == "display" and \
-                contains(fargs[0][1], lambda x: x[0] == "field" and x[2] == "ty" and peel(x[1])[0] == "bound")
+                peel(fargs[0][1])[0] == "field" and peel(fargs[0][1])[2] == "ty" and peel(peel(fargs[0][1])[1])[0] == "bound"
     ctx.ob(R, g.key, "type-renamed-wasm-prefix", ok, "ev.ty must be format!(\"wasm-{}\", ev.ty); found %s" % d,
            fn=g, sample=d)
 
